@@ -28,9 +28,10 @@ RULE = ("one connector with ample power, 1-4 vehicles each with one standing per
 ASSUMPTIONS = ["tolerance at departure 1e-4 (the property's)",
                "feasible = full-power charging at min(curve, station) reaches the desired SoC within the standing steps "
                "and the connector can supply all stations simultaneously"]
-UNPROVED = ["the guarantee for balanced_market, peak_load_window and flex_window rests on their bisection loops ending "
-            "on the safe side; no model of these strategies exists, decided by the oracle on real runs",
-            "C09_greedy_reach / C09_balanced_const are stated for the modelled strategies only"]
+UNPROVED = ["the run-level guarantee (SoC at departure over a whole standing period) has no theorem: it is decided by the "
+            "oracle on real runs; for balanced / distributed / balanced_market on varying curves and for peak_load_window "
+            "under varying headroom it is false on the unchanged code (findings F2, P2)",
+            "the plan theorems (C09_*) are per step / per plan on the strategy models over an ideal battery"]
 
 T0 = scen.T0
 
